@@ -614,6 +614,53 @@ class Program(object):
             out += arity
         return out
 
+    def callees(self, fn):
+        """[(call node, target Func)] of a function (resolved, closed world)"""
+        c = getattr(self, '_callees', None)
+        if c is None:
+            c = self._callees = {}
+        if fn.usr not in c:
+            out = []
+            for n in fn.walk():
+                if n.k in ('call', 'construct') and n.callee:
+                    for t in self.resolve_call(n):
+                        out.append((n, t))
+            c[fn.usr] = out
+        return c[fn.usr]
+
+    def reachable(self, fn, stop=None):
+        """USRs of all functions transitively callable from fn (fn excluded unless recursive)"""
+        seen = {}
+        st = [(fn, None)]
+        while st:
+            f, via = st.pop()
+            for n, t in self.callees(f):
+                if t.usr in seen:
+                    continue
+                if stop is not None and stop(t):
+                    continue
+                seen[t.usr] = (f, n)
+                st.append((t, f))
+        return seen
+
+    def path_to(self, fn, target_usr):
+        """one call chain fn -> ... -> target as a list of qualified names"""
+        seen = self.reachable(fn)
+        if target_usr not in seen:
+            return None
+        chain = []
+        u = target_usr
+        guard = 0
+        while u in seen and guard < 50:
+            f, n = seen[u]
+            chain.append('%s (line %s)' % (self.funcs[u].q, n.l))
+            if f.usr == fn.usr:
+                break
+            u = f.usr
+            guard += 1
+        chain.append(fn.q)
+        return list(reversed(chain))
+
     def callers(self):
         """usr -> [(Func, call node)]"""
         if self._callers is None:
